@@ -14,12 +14,12 @@ git -C /repo worktree add -q --detach "$wt" HEAD || exit 2
 trap 'git -C /repo worktree remove --force "$wt" >/dev/null 2>&1; rm -f /tmp/sp-$$-*' EXIT
 "$V/seeded/$id/demo.sh" "$wt" >/tmp/sp-$$-d0.log 2>&1; r0=$?
 if ! git -C "$wt" apply "$V/seeded/$id/patch.diff"; then echo "$id: PATCH DOES NOT APPLY"; exit 2; fi
-(cd "$wt" && go build ./... && go test -vet=off -count=1 ./... >/tmp/sp-$$-suite.log 2>&1); rs=$?
-ntests=$(cd "$wt" && go test -vet=off -count=1 -v ./... 2>/dev/null | grep -c '^=== RUN')
+(cd "$wt" && go build ./... && go test -vet=off -count=1 -v ./... >/tmp/sp-$$-suite.log 2>&1); rs=$?
+ntests=$(grep -c '^=== RUN' /tmp/sp-$$-suite.log)
 "$V/seeded/$id/demo.sh" "$wt" >/tmp/sp-$$-d1.log 2>&1; r1=$?
 echo "$id: demo unchanged rc=$r0 (want 0); suite with change rc=$rs (want 0, $ntests tests run); demo with change rc=$r1 (want !=0)"
 [ $r0 -ne 0 ] && tail -5 /tmp/sp-$$-d0.log
-[ $rs -ne 0 ] && grep -v "^ok\|no test files" /tmp/sp-$$-suite.log | head -5
+[ $rs -ne 0 ] && grep -E "^(--- FAIL|FAIL|panic)" /tmp/sp-$$-suite.log | head -5
 git -C "$wt" status --short | grep -v '^ M' | head -3
 results=""
 for c in $prop $extra; do
